@@ -33,13 +33,20 @@ def check(rep):
     coq = fw.coq_check("C14", [])
     quick = rep.tier == "quick"
     rnd = random.Random(rep.seed + 14)
-    n_sys = 40 if quick else 1500
+    n_sys = 40 if quick else 300
     evaluations = 0
     distinct = set()
     lines, pend = [], []
     ratio_hist = {}
     for k in range(n_sys):
-        if k % 10 == 7:
+        if k % 10 == 3:
+            # a component with a declared share of 0 %, listed first / in the middle: never generated, the others keep their shares
+            comps = rnd.choice([c for c in EQUAL if len(c) == 3])
+            shares = rnd.choice([[0.0, 60.0, 40.0], [70.0, 0.0, 30.0], [0.0, 25.0, 75.0]])
+            text = "".join(c + f".|{p}%|" for c, p in zip(comps, shares))
+            pct = None
+            smw = 2000.0
+        elif k % 10 == 7:
             # tied fractions: the same declared share for several components
             comps = rnd.choice(EQUAL)
             n = len(comps)
@@ -85,7 +92,7 @@ def check(rep):
         # mean molecule masses of the components (fresh parse, so that wrappers do not interfere)
         import gbigsmiles
         fresh = gbigsmiles.System(text, system_molweight=smw)
-        means = [mean_mass(m, 12 if quick else 60, seed) for m in fresh._molecules]
+        means = [mean_mass(m, 12 if quick else 30, seed) for m in fresh._molecules]
         pend.append((ident, rel, p_impl, means))
     outs = fw.run_driver(lines)
     for (ident, rel, p_impl, means), out in zip(pend, outs):
